@@ -48,8 +48,10 @@ SPECS = {
     + [spec("suspreal", [], bound=0, pre=h, sleep=2) for h in _hist(4)]
     + [spec("suspreal", MENU + [("call", "X")], bound=2, pre=h, sleep=2) for h in ("I", "IT", "TI", "ITR")]
     + [spec("suspreal", MENU, bound=1, pre=h, sleep=2, a=1) for h in _hist(2)]
-    + [spec("susp2", [], bound=0, pre=h, order=o, sleep=s, ho=ho) for h in _hist2(4) for o in ("ab", "ba") for s in (0, 2) for ho in ("ab", "ba")]
-    + [spec("susp2", MENU2, bound=2, pre=h, order=o, sleep=s, ho=ho) for h in _hist2(2) for o in ("ab", "ba") for s in (0, 2) for ho in ("ab", "ba")],
+    + [spec("susp2", [], bound=0, pre=h, order=o, ho=ho) for h in _hist2(4) for o in ("ab", "ba") for ho in ("ab", "ba")]
+    + [spec("susp2", [], bound=0, pre=h, order=o, sleep=2, ho=ho) for h in _hist2(3) for o in ("ab", "ba") for ho in ("ab", "ba")]
+    + [spec("susp2", MENU2, bound=1, pre=h, order=o, sleep=s, ho=ho) for h in _hist2(2) for o in ("ab", "ba") for s in (0, 2) for ho in ("ab", "ba")]
+    + [spec("susp2", MENU2, bound=2, pre=h, order=o, ho=ho) for h in ("T", "t", "Tt", "tT", "TtO") for o in ("ab", "ba") for ho in ("ab", "ba")],
 }
 
 
